@@ -20,6 +20,7 @@ EXPLANATION = (
     "table sends a redirect rule to a blocking list iff that bit is set); (5) resources are looked "
     "up by name then alias, and only get_redirect_resource / get_permissioned_resource may call the "
     "raw lookup."
+    ' Later additions: a redirect rule, important or not, is filed under a blocking list iff ALSO_BLOCK_REDIRECT; equal priorities are resolved by a strict comparison of the resource names (truth table over the update decision); the JSON keys of Resource / ResourceType and the media-type strings of MimeType are the established ones, writer and reader agree; add_resource writes nothing before its last rejection; use_resources replaces the storage.'
 )
 NOT_DECIDED = "Selection of the maximum over runtime priorities, priority parsing and tie behaviour."
 
